@@ -72,7 +72,7 @@ func splitInts(s string) []int {
 
 func (o stOp) String() string {
 	switch o.kind {
-	case 'A':
+	case 'A', 'R':
 		var ns []string
 		for _, n := range o.ns {
 			ns = append(ns, fmt.Sprintf("%d:%d:%d", n.name, n.count, n.rf))
@@ -81,7 +81,7 @@ func (o stOp) String() string {
 		if len(ns) > 0 {
 			nss = strings.Join(ns, "+")
 		}
-		return "A" + nss + "|" + joinInts(o.servers)
+		return string(o.kind) + nss + "|" + joinInts(o.servers)
 	case 'D':
 		return fmt.Sprintf("D%d:%d", o.name, o.id)
 	default:
@@ -95,9 +95,9 @@ func (o stOp) String() string {
 
 func parseStOp(s string) stOp {
 	switch s[0] {
-	case 'A':
+	case 'A', 'R':
 		parts := strings.SplitN(s[1:], "|", 2)
-		o := stOp{kind: 'A', servers: splitInts(parts[1])}
+		o := stOp{kind: s[0], servers: splitInts(parts[1])}
 		if parts[0] != "-" {
 			for _, p := range strings.Split(parts[0], "+") {
 				f := strings.Split(p, ":")
@@ -259,6 +259,9 @@ type stRun struct {
 	prevGen  int64
 	hist     map[string][][]sh // per namespace: successive distinct non-empty publications
 	input    string
+	meta     metadata.Provider         // the store behind sr (shared with the coordinators of restart ops)
+	masked   bool                      // coord kind: observable without ensembles / status / term / leader
+	dead     bool                      // a restart did not come back: the case cannot continue
 	pubMsgs  []*proto.ShardAssignments // what computeNewAssignments produced after each step
 	pubOK    []bool                    // whether the history was still inside the proved domain at that step
 }
@@ -324,6 +327,9 @@ func (r *stRun) apply(op stOp) (res string) {
 	}
 	if panicked {
 		// the coordinator crashes inside ConfigChanged / NewCoordinator: nothing is stored
+		if r.masked {
+			return "panic"
+		}
 		return "panic{calls:" + calls + "}"
 	}
 	r.sr.Update(newStatus)
@@ -368,6 +374,9 @@ func (r *stRun) apply(op stOp) (res string) {
 			}
 		}
 	}
+	if r.masked {
+		return "ok{add:" + j(adds) + "}{del:" + j(dels) + "}"
+	}
 	return "ok{add:" + j(adds) + "}{del:" + j(dels) + "}{calls:" + calls + "}"
 }
 
@@ -376,6 +385,11 @@ func (r *stRun) step(op stOp) string {
 	switch op.kind {
 	case 'A':
 		head = r.apply(op)
+	case 'R':
+		head = r.restart(op)
+		if r.dead {
+			return head
+		}
 	case 'D':
 		r.sr.DeleteShardMetadata(nsName(op.name), op.id)
 	case 'M':
@@ -396,6 +410,9 @@ func (r *stRun) step(op stOp) string {
 	r.pubMsgs = append(r.pubMsgs, msg)
 	r.pubOK = append(r.pubOK, r.inDomain)
 	r.verdicts(op, st, pub)
+	if r.masked {
+		return head + "{" + fmtStatusMasked(st) + "}{pub:" + fmtPubMasked(pub) + "}"
+	}
 	return head + "{" + fmtStatus(st) + "}{pub:" + fmtPub(pub) + "}"
 }
 
@@ -467,7 +484,7 @@ func (r *stRun) verdicts(op stOp, st *model.ClusterStatus, pub map[string][]pubS
 		}
 	}
 	if st.ShardIdGenerator < r.prevGen {
-		o.Violation("status:id-reused", fmt.Sprintf("ShardIdGenerator went from %d to %d at %s; case: %.400s", r.prevGen, st.ShardIdGenerator, op, r.input))
+		o.Violation("status:generator-decreased", fmt.Sprintf("ShardIdGenerator went from %d to %d at %s; case: %.400s", r.prevGen, st.ShardIdGenerator, op, r.input))
 	}
 	r.prevGen = st.ShardIdGenerator
 	// every namespace: its non-deleting shards are nothing (namespace going away) or a partition of [0,2^32)
@@ -508,7 +525,8 @@ func runStatus(o *hx.Out, input string, rng *hx.Rng) {
 	t := strings.Fields(input)
 	g0, _ := strconv.ParseInt(t[0], 10, 64)
 	x0, _ := strconv.ParseUint(t[1], 10, 32)
-	r := &stRun{o: o, sr: resources.NewStatusResource(metadata.NewMetadataProviderMemory()), inDomain: true,
+	meta := metadata.NewMetadataProviderMemory()
+	r := &stRun{o: o, meta: meta, sr: resources.NewStatusResource(meta), inDomain: true,
 		seen: map[int64]seenShard{}, hist: map[string][][]sh{}, input: input, prevGen: g0}
 	if t[2] != "-" {
 		r.script = strings.Split(t[2], ",")
@@ -561,7 +579,7 @@ func runStatus(o *hx.Out, input string, rng *hx.Rng) {
 func (r *stRun) classify(op stOp) {
 	st := r.sr.Load()
 	switch op.kind {
-	case 'A':
+	case 'A', 'R':
 		names := map[int]bool{}
 		for _, n := range op.ns {
 			if n.count < 1 || n.count > 65536 {
